@@ -595,11 +595,32 @@ def saveToStream(stream, bluep, full=False, tryMap=False):
             aMap = asciimaps.asciiMapFromGeomAndDomain(
                 gridDesign.geom, symmetry.domain
             )()
-            aMap.asciiLabelByIndices = {
+            contents = {
                 (key[0], key[1]): val for key, val in gridDesign.gridContents.items()
             }
+            iShift = jShift = 0
+            if (
+                geometry.GeomType.fromStr(gridDesign.geom) == geometry.GeomType.CARTESIAN
+                and symmetry.domain == geometry.DomainType.FULL_CORE
+            ):
+                # the reader centres a full Cartesian map on (0, 0); the map itself starts at (0, 0)
+                iShift = -min(key[0] for key in contents)
+                jShift = -min(key[1] for key in contents)
+            aMap.asciiLabelByIndices = {
+                (i + iShift, j + jShift): val for (i, j), val in contents.items()
+            }
+            mapString = StringIO()
             try:
                 aMap.gridContentsToAscii()
+                aMap.writeAscii(mapString)
+                # only use the map if it reads back to exactly the contents it was drawn from
+                trial = copy.copy(gridDesign)
+                trial.latticeMap = mapString.getvalue()
+                trial._readGridContentsLattice()
+                if trial.gridContents != contents:
+                    raise ValueError(
+                        "the lattice map does not read back to the grid contents"
+                    )
             except Exception as e:
                 runLog.warning(
                     "The `lattice map` for the current assembly arrangement cannot be written. "
@@ -612,8 +633,6 @@ def saveToStream(stream, bluep, full=False, tryMap=False):
                 # the contents of the lattice map section of the grid design.
                 # This also clears out the grid contents so there is not duplicate data.
                 gridDesign.gridContents = None
-                mapString = StringIO()
-                aMap.writeAscii(mapString)
                 gridDesign.latticeMap = scalarstring.LiteralScalarString(
                     mapString.getvalue()
                 )
